@@ -26,6 +26,7 @@ import (
 	"encoding/json"
 	"fmt"
 	"strings"
+	"sync"
 
 	"github.com/apmckinlay/gsuneido/util/ascii"
 	"github.com/apmckinlay/gsuneido/util/str"
@@ -175,7 +176,7 @@ func checkTr(c *lib.Ctx, src, from, to string) bool {
 			// begins with ^ - which Replace then takes as the negation marker
 			class = "tr-expanded-from-starts-with-caret"
 		}
-		c.Fail(class, kase{Kind: "tr", Args: hx(src, from, to)}, "%q.Tr(%q, %q) = %q, reference gives %q", src, from, to, got, want)
+		failc(c, class, kase{Kind: "tr", Args: hx(src, from, to)}, "%q.Tr(%q, %q) = %q, reference gives %q", src, from, to, got, want)
 		return false
 	}
 	return got != src
@@ -344,7 +345,7 @@ func mkFail(c *lib.Ctx, kind string) failer {
 		for i, s := range args {
 			qa[i] = fmt.Sprintf("%q", s)
 		}
-		c.Fail(class, kase{Kind: kind, Fn: fn, Args: hx(args...)}, "str.%s(%s): %s", fn, strings.Join(qa, ", "), fmt.Sprintf(format, a...))
+		failc(c, class, kase{Kind: kind, Fn: fn, Args: hx(args...)}, "str.%s(%s): %s", fn, strings.Join(qa, ", "), fmt.Sprintf(format, a...))
 	}
 }
 
@@ -728,4 +729,30 @@ func main() {
 		QuickBudget: 100, ThoroughBudget: 900,
 		Run: run, Replay: replay,
 	})
+}
+
+// failc reports a failure. Failures that carry a precise class (candidates
+// for KNOWN_FINDINGS) are counted per class in the evidence; while a class is
+// not a listed known finding only its first case is reported as a violation,
+// so that one run shows every class (lib stops after 5 violations).
+var classMu sync.Mutex
+var classReported = map[string]bool{}
+
+func failc(c *lib.Ctx, class string, cs any, format string, a ...any) {
+	if class == "" {
+		c.Fail("", cs, format, a...)
+		return
+	}
+	c.Count("classified_failures:"+class, 1)
+	classMu.Lock()
+	done := classReported[class]
+	classMu.Unlock()
+	if done {
+		return
+	}
+	if known := c.Fail(class, cs, format, a...); !known {
+		classMu.Lock()
+		classReported[class] = true
+		classMu.Unlock()
+	}
 }
